@@ -71,7 +71,8 @@ def src_line(path, n):
 
 def idents(expr):
     # drop member accesses (.x / ->x) and __CPROVER_* builtins
-    e = re.sub(r"(\.|->)\s*[A-Za-z_]\w*", " ", expr)
+    e = re.sub(r"\b0[xX][0-9a-fA-F]+[uUlL]*\b|\b\d+[uUlL]*\b", " ", expr)
+    e = re.sub(r"(\.|->)\s*[A-Za-z_]\w*", " ", e)
     ids = set(re.findall(r"[A-Za-z_]\w*", e))
     return {i for i in ids if i not in KEYWORDS and not i.startswith("__CPROVER")}
 
